@@ -22,7 +22,7 @@ from octave_mcp.core.schema_extractor import (
 
 # Security: Pattern for valid schema names (uppercase letters, digits, underscores)
 # Must start with uppercase letter. Prevents path traversal attacks like "../secret"
-SCHEMA_NAME_PATTERN = re.compile(r"^[A-Z][A-Z0-9_]*$")
+SCHEMA_NAME_PATTERN = re.compile(r"^[A-Z][A-Z0-9_]*\Z")  # \Z, not $: "$" also matches before a trailing newline
 
 
 # BUILTIN_SCHEMA_DEFINITIONS maintained for backwards compatibility
